@@ -42,6 +42,8 @@ func checkC11(c *Ctx, r *Report) {
 	borrow(c, r, c15ReadMsg, "C15.R3.verify-every-message", "C11.R5.transfer-verify", 1, "Transfer.ReadMsg verifies the octets as received (the TSIG still in them) and keeps the verified MAC as the previous MAC", nil, "the MAC chain of a multi-envelope answer breaks: the second envelope of a correctly signed transfer fails with a bad signature")
 	borrow(c, r, func(c *Ctx, r *Report) { c15Loop(c, r, "Transfer.inAxfr"); c15Loop(c, r, "Transfer.inIxfr") }, "C15.R3.timers-only", "C11.R5.timers-only", 2, "timers-only is only switched on (before the second envelope), never reset while a transfer runs", nil, "the query of the second transfer made with one Transfer is signed timers-only and does not verify as a first message")
 	macKeptOnFailure(c, r, "C11.R5.mac-kept-on-failure")
+	r.rule("C11.R4.canonical-fold", 1, "CanonicalName, which lower-cases the key and algorithm names into the digest, folds exactly A-Z")
+	foldRangeRule(c, r, "C11.R4.canonical-fold", "CanonicalName", "a key name containing the letter left out goes into the digest with an upper-case octet: the MAC is not the RFC 8945 MAC, and the genuine one is refused")
 }
 
 func isUint64(v ssa.Value) bool {
